@@ -205,27 +205,67 @@ func queriesScenario(s *Sim, params map[string]string) {
 							}
 						}
 					}
-				case 1: // OffsetFetch
+				case 1: // OffsetFetch over several topics with different partition subsets
 					gi := t.Intn("work", ngrp)
 					g := cl.group(fmt.Sprintf("qg%d", gi))
-					var parts []int
-					for _, pp := range ps {
-						parts = append(parts, int(pp.ID))
+					req := map[string][]int{}
+					if t.Intn("work", 3) == 0 {
+						for _, pp := range ps {
+							req[tn] = append(req[tn], int(pp.ID))
+						}
+					} else {
+						for _, x := range topics {
+							var sub []int
+							for _, pp := range cl.Topics[x].Parts {
+								if t.Intn("work", 2) == 0 {
+									sub = append(sub, int(pp.ID))
+								}
+							}
+							// listing order is the caller's business
+							if len(sub) > 1 && t.Intn("work", 2) == 0 {
+								sub[0], sub[len(sub)-1] = sub[len(sub)-1], sub[0]
+							}
+							if len(sub) > 0 {
+								req[x] = sub
+							}
+						}
+						if len(req) == 0 {
+							req[tn] = []int{int(p.ID)}
+						}
 					}
-					res, err := client.OffsetFetch(ctx, &kafka.OffsetFetchRequest{GroupID: g.ID, Topics: map[string][]int{tn: parts}})
+					res, err := client.OffsetFetch(ctx, &kafka.OffsetFetchRequest{GroupID: g.ID, Topics: req})
 					if err != nil || res.Error != nil {
 						break
 					}
-					if len(res.Topics[tn]) != len(parts) {
-						bad("R1-offset-fetch", "Client.OffsetFetch(%s,%s): %d partitions returned, %d asked", g.ID, tn, len(res.Topics[tn]), len(parts))
-					}
-					for _, po := range res.Topics[tn] {
-						want := int64(-1)
-						if o, ok := g.Offsets[tn][int32(po.Partition)]; ok {
-							want = o
+					for x, parts := range req {
+						if len(res.Topics[x]) != len(parts) {
+							bad("R1-offset-fetch", "Client.OffsetFetch(%s, %v): %d partitions returned for %s, %d asked", g.ID, req, len(res.Topics[x]), x, len(parts))
 						}
-						if po.Error == nil && po.CommittedOffset != want {
-							bad("R1-offset-fetch", "Client.OffsetFetch(%s) %s[%d] returned %d, committed %d", g.ID, tn, po.Partition, po.CommittedOffset, want)
+						asked := map[int]bool{}
+						for _, pi := range parts {
+							asked[pi] = true
+						}
+						for _, po := range res.Topics[x] {
+							if !asked[po.Partition] {
+								bad("R1-offset-fetch", "Client.OffsetFetch(%s, %v) reports %s[%d], which was not asked for", g.ID, req, x, po.Partition)
+								continue
+							}
+							delete(asked, po.Partition)
+							want := int64(-1)
+							if o, ok := g.Offsets[x][int32(po.Partition)]; ok {
+								want = o
+							}
+							if po.Error == nil && po.CommittedOffset != want {
+								bad("R1-offset-fetch", "Client.OffsetFetch(%s, %v) %s[%d] returned %d, committed %d", g.ID, req, x, po.Partition, po.CommittedOffset, want)
+							}
+						}
+						for pi := range asked {
+							bad("R1-offset-fetch", "Client.OffsetFetch(%s, %v): no entry for %s[%d]", g.ID, req, x, pi)
+						}
+					}
+					for x := range res.Topics {
+						if _, ok := req[x]; !ok && len(res.Topics[x]) > 0 {
+							bad("R1-offset-fetch", "Client.OffsetFetch(%s, %v) reports topic %s, which was not asked for", g.ID, req, x)
 						}
 					}
 				case 2: // ConsumerOffsets
@@ -244,36 +284,53 @@ func queriesScenario(s *Sim, params map[string]string) {
 							bad("R1-consumer-offsets", "Client.ConsumerOffsets(%s,%s)[%d] = %d (present %v), committed %d", g.ID, tn, pp.ID, got, ok, want)
 						}
 					}
-				case 3: // OffsetCommit with a per-partition failure
+				case 3: // OffsetCommit over several topics and partition subsets, with per-partition failures
 					gid := fmt.Sprintf("qc%d-%d", a, t.Intn("work", 3))
-					commits := []kafka.OffsetCommit{}
-					want := map[int32]int64{}
-					for _, pp := range ps {
-						o := int64(t.Intn("work", 100))
-						commits = append(commits, kafka.OffsetCommit{Partition: int(pp.ID), Offset: o})
-						want[pp.ID] = o
+					creq := map[string][]kafka.OffsetCommit{}
+					want := map[tp]int64{}
+					for _, x := range topics {
+						if x != tn && t.Intn("work", 2) == 0 {
+							continue
+						}
+						for _, pp := range cl.Topics[x].Parts {
+							if x != tn && t.Intn("work", 2) == 0 {
+								continue
+							}
+							o := int64(t.Intn("work", 100))
+							creq[x] = append(creq[x], kafka.OffsetCommit{Partition: int(pp.ID), Offset: o, Metadata: fmt.Sprintf("m-%s-%d", x, pp.ID)})
+							want[tp{x, pp.ID}] = o
+						}
 					}
-					res, err := client.OffsetCommit(ctx, &kafka.OffsetCommitRequest{GroupID: gid, GenerationID: -1, Topics: map[string][]kafka.OffsetCommit{tn: commits}})
+					res, err := client.OffsetCommit(ctx, &kafka.OffsetCommitRequest{GroupID: gid, GenerationID: -1, Topics: creq})
 					if err != nil {
 						break
 					}
 					g := cl.group(gid)
-					for _, pc := range res.Topics[tn] {
-						code := failCode[tp{tn, int32(pc.Partition)}]
-						if code != 0 {
-							if !errors.Is(pc.Error, kafka.Error(code)) {
-								bad("R2-error-not-reported", "Client.OffsetCommit %s[%d] answered error %d, entry carries %v", tn, pc.Partition, code, pc.Error)
+					for x, commits := range creq {
+						seen := map[int]bool{}
+						for _, pc := range res.Topics[x] {
+							k := tp{x, int32(pc.Partition)}
+							if _, asked := want[k]; !asked {
+								bad("R1-offset-commit", "Client.OffsetCommit reports %s[%d], which was not part of the request", x, pc.Partition)
+								continue
 							}
-						} else {
-							if pc.Error != nil {
-								bad("R2-error-leaked", "Client.OffsetCommit: healthy partition %s[%d] carries error %v", tn, pc.Partition, pc.Error)
-							} else if g.Offsets[tn][int32(pc.Partition)] != want[int32(pc.Partition)] {
-								bad("R1-offset-commit", "Client.OffsetCommit %s[%d]: reported success, coordinator holds %d, committed %d", tn, pc.Partition, g.Offsets[tn][int32(pc.Partition)], want[int32(pc.Partition)])
+							seen[pc.Partition] = true
+							code := failCode[k]
+							if code != 0 {
+								if !errors.Is(pc.Error, kafka.Error(code)) {
+									bad("R2-error-not-reported", "Client.OffsetCommit %s[%d] answered error %d, entry carries %v", x, pc.Partition, code, pc.Error)
+								}
+							} else {
+								if pc.Error != nil {
+									bad("R2-error-leaked", "Client.OffsetCommit: healthy partition %s[%d] carries error %v", x, pc.Partition, pc.Error)
+								} else if g.Offsets[x][int32(pc.Partition)] != want[k] {
+									bad("R1-offset-commit", "Client.OffsetCommit %s[%d]: reported success, coordinator holds %d, committed %d", x, pc.Partition, g.Offsets[x][int32(pc.Partition)], want[k])
+								}
 							}
 						}
-					}
-					if len(res.Topics[tn]) != len(commits) {
-						bad("R1-offset-commit", "Client.OffsetCommit: %d partition results for %d commits", len(res.Topics[tn]), len(commits))
+						if len(seen) != len(commits) {
+							bad("R1-offset-commit", "Client.OffsetCommit: %d partition results for the %d commits of %s", len(seen), len(commits), x)
+						}
 					}
 				case 4: // Metadata: leaders, replicas, isr, partition lists
 					res, err := client.Metadata(ctx, &kafka.MetadataRequest{Topics: []string{tn}})
